@@ -4,6 +4,7 @@ package main
 
 import (
 	"fmt"
+	"go/constant"
 	"go/token"
 	"go/types"
 	"sort"
@@ -346,7 +347,74 @@ func columnArrayElem(arr *ssa.Alloc, k int64, skip *ssa.IndexAddr) (*colInfo, st
 			return &colInfo{name: lit[k], required: req, ctor: call, file: call.Call.Args[0]}, ""
 		}
 	}
+	// the array variable is a copy of a whole array value: a parameter (what the callers pass) or what a constructor
+	// helper of the module returned (its own local array, filled there)
+	var res *colInfo
+	nWhole := 0
+	for _, r := range *arr.Referrers() {
+		st, ok := r.(*ssa.Store)
+		if !ok || st.Addr != ssa.Value(arr) {
+			continue
+		}
+		nWhole++
+		ci, why := columnArrayValueElem(st.Val, k, 0)
+		if ci == nil {
+			return nil, why
+		}
+		if res != nil && res.name != ci.name {
+			return nil, "column array variable holds several arrays"
+		}
+		res = ci
+	}
+	if res != nil && nWhole > 0 {
+		return res, ""
+	}
 	return nil, "no constructor stored into the column array"
+}
+
+// columnArrayValueElem: element k of a column array value (not an address).
+func columnArrayValueElem(v ssa.Value, k int64, depth int) (*colInfo, string) {
+	if depth > 6 {
+		return nil, "too deep"
+	}
+	agree := func(vals []ssa.Value) (*colInfo, string) {
+		var res *colInfo
+		for _, a := range vals {
+			ci, why := columnArrayValueElem(a, k, depth+1)
+			if ci == nil {
+				return nil, why
+			}
+			if res != nil && res.name != ci.name {
+				return nil, "column array value comes from several arrays"
+			}
+			res = ci
+		}
+		if res == nil {
+			return nil, "column array value of unknown origin"
+		}
+		return res, ""
+	}
+	switch x := v.(type) {
+	case *ssa.Parameter:
+		return agree(paramArgs(x))
+	case *ssa.UnOp:
+		if al, ok := x.X.(*ssa.Alloc); ok && x.Op == token.MUL {
+			return columnArrayElem(al, k, nil)
+		}
+	case *ssa.Call:
+		cal := x.Call.StaticCallee()
+		if cal == nil || x.Call.IsInvoke() || resolveProg == nil || !resolveProg.isModuleFn(cal) || len(cal.Blocks) == 0 {
+			return nil, "column array returned by an unknown function"
+		}
+		var rets []ssa.Value
+		for _, blk := range cal.Blocks {
+			if ret, ok := blk.Instrs[len(blk.Instrs)-1].(*ssa.Return); ok && len(ret.Results) == 1 {
+				rets = append(rets, ret.Results[0])
+			}
+		}
+		return agree(rets)
+	}
+	return nil, "column array value of unknown origin"
 }
 
 // literalStrings returns the elements of a []string{...} literal (go/ssa: array alloc, constant-index stores, slice).
@@ -772,10 +840,23 @@ func runDefaults(c *Ctx) {
 				}
 			}
 			absentCell, blankCell := cellFor(sum.absent), cellFor(sum.blank)
+			// a decode that runs only when the file has the column: without the column the field keeps its zero value
+			skipped, zero, pwhy := skippedWhenAbsent(c, rs)
+			if pwhy != "" {
+				c.Undecided("DEF", fname, o.column+" [column absent]", pos, "the decode of "+o.column+" is guarded by a test of the column object that cannot be summarised: "+pwhy)
+				continue
+			}
 			// consumer of the read
 			for _, variant := range []struct{ what, cell string }{{"column absent", absentCell}, {"cell blank", blankCell}} {
 				got, why := evalConsumer(c, rs.call, variant.cell)
 				key := o.column + " [" + variant.what + "]"
+				if skipped && variant.what == "column absent" && got != nil {
+					okZ := len(o.expect) == 1 && o.expect[0] == zero
+					c.Check(okZ, "DEF", fname, key, pos,
+						fmt.Sprintf("the decode is skipped when the file has no %s column; the field keeps its zero value %s = GTFS default (%s)", o.column, zero, o.doc),
+						fmt.Sprintf("the decode of %s runs only when the file has the column: without it the field keeps its zero value %s, but the GTFS default is %s (%s); a blank cell in a present column yields the default, so absent and blank differ", o.column, zero, strings.Join(o.expect, "/"), o.doc))
+					continue
+				}
 				if got == nil {
 					c.Undecided("DEF", fname, key, pos, "cannot follow the value read from "+o.column+" to a field: "+why)
 					continue
@@ -797,6 +878,171 @@ func runDefaults(c *Ctx) {
 			}
 		}
 	}
+}
+
+// skippedWhenAbsent: the read of a column (or the use of what it returns) is controlled by a condition computed from
+// the same column object by something other than a cell read (`if col.Present() { x.F = decode(col.ReadOr("")) }`),
+// and that condition excludes the read when the file does not have the column. Returns the zero constant of the
+// value the field would have received. why != "" when such a guard exists but cannot be summarised.
+func skippedWhenAbsent(c *Ctx, rs readSite) (skipped bool, zero string, why string) {
+	blocks := map[*ssa.BasicBlock]bool{rs.call.Block(): true}
+	var resT types.Type = rs.call.Type()
+	if refs := rs.call.Referrers(); refs != nil {
+		for _, r := range *refs {
+			switch x := r.(type) {
+			case *ssa.Store:
+				blocks[x.Block()] = true
+			case *ssa.BinOp:
+				resT = x.Type()
+				blocks[x.Block()] = true
+			case *ssa.Call:
+				blocks[x.Block()] = true
+				resT = x.Type()
+				if rr := x.Referrers(); rr != nil {
+					for _, r2 := range *rr {
+						if st, ok := r2.(*ssa.Store); ok {
+							blocks[st.Block()] = true
+						}
+					}
+				}
+			}
+		}
+	}
+	recvCol := rs.col
+	for blk := range blocks {
+		for d := blk.Idom(); d != nil; d = d.Idom() {
+			iff, ok := d.Instrs[len(d.Instrs)-1].(*ssa.If)
+			if !ok || len(d.Succs) != 2 {
+				continue
+			}
+			want := true
+			switch {
+			case d.Succs[0] != d.Succs[1] && len(d.Succs[0].Preds) == 1 && d.Succs[0].Dominates(blk):
+				want = true
+			case d.Succs[0] != d.Succs[1] && len(d.Succs[1].Preds) == 1 && d.Succs[1].Dominates(blk):
+				want = false
+			default:
+				continue
+			}
+			cv := iff.Cond
+			for {
+				u, ok := cv.(*ssa.UnOp)
+				if !ok || u.Op != token.NOT {
+					break
+				}
+				cv, want = u.X, !want
+			}
+			call, ok := cv.(*ssa.Call)
+			if !ok {
+				continue
+			}
+			callee := staticCallee(call)
+			if callee == nil || len(call.Call.Args) == 0 {
+				continue
+			}
+			// a test of a column object
+			colArg := -1
+			for i, a := range call.Call.Args {
+				if strings.HasSuffix(typeName(a.Type()), "csv.OptionalColumn") {
+					colArg = i
+				}
+			}
+			if colArg < 0 {
+				continue
+			}
+			ci, _ := resolveColumn(call.Call.Args[colArg], 0)
+			if ci == nil || ci.name != recvCol.name {
+				continue // a test of another column does not depend on this one's presence
+			}
+			res, ok := predicateWhenAbsent(callee, colArg)
+			if !ok {
+				return false, "", "the result of " + shortName(callee) + " for an absent column is not apparent (expected a comparison of the column index with a constant)"
+			}
+			if res != want {
+				skipped = true
+			}
+		}
+	}
+	if !skipped {
+		return false, "", ""
+	}
+	switch b := resT.Underlying().(type) {
+	case *types.Basic:
+		switch {
+		case b.Info()&types.IsString != 0:
+			zero = "const:\"\""
+		case b.Info()&types.IsBoolean != 0:
+			zero = "const:false"
+		case b.Info()&types.IsNumeric != 0:
+			zero = "const:0"
+		}
+	}
+	if zero == "" {
+		return false, "", "the zero value of " + resT.String() + " is not a constant"
+	}
+	return true, zero, ""
+}
+
+// predicateWhenAbsent: what a boolean function of a column object returns when the column is absent.
+func predicateWhenAbsent(f *ssa.Function, colArg int) (bool, bool) {
+	if len(f.Blocks) == 0 || f.Signature.Results().Len() != 1 {
+		return false, false
+	}
+	if len(f.Blocks) == 1 {
+		ret, ok := f.Blocks[0].Instrs[len(f.Blocks[0].Instrs)-1].(*ssa.Return)
+		if !ok || len(ret.Results) != 1 {
+			return false, false
+		}
+		v, neg := ret.Results[0], false
+		for {
+			u, ok := v.(*ssa.UnOp)
+			if !ok || u.Op != token.NOT {
+				break
+			}
+			v, neg = u.X, !neg
+		}
+		switch classifyColumnAtom(atom{v: v}) {
+		case "absent":
+			if bo := v.(*ssa.BinOp); bo.Op == token.NEQ {
+				neg = !neg
+			}
+			return !neg, true
+		case "present":
+			return neg, true
+		}
+		return false, false
+	}
+	tb, err := extractTable(f)
+	if err != nil {
+		return false, false
+	}
+	res, seen := false, false
+	for _, r := range tb.rows {
+		absent := "unknown"
+		for _, a := range r.conds {
+			switch classifyColumnAtom(a) {
+			case "absent":
+				absent = fmt.Sprint(!a.neg)
+			case "present":
+				absent = fmt.Sprint(a.neg)
+			default:
+				return false, false
+			}
+		}
+		if absent == "false" {
+			continue
+		}
+		k, ok := r.vals[0].(*ssa.Const)
+		if !ok || k.Value == nil || k.Value.Kind() != constant.Bool {
+			return false, false
+		}
+		bv := constant.BoolVal(k.Value)
+		if seen && bv != res {
+			return false, false
+		}
+		res, seen = bv, true
+	}
+	return res, seen
 }
 
 // evalConsumer determines the constant(s) the field takes when the read call returns
